@@ -16,8 +16,8 @@ import itertools
 
 from ..program import AnalysisError, Inconclusive, ClassInfo, ExtClass
 from ..values import (Const, Sym, CRef, FRef, MRef, Bound, BoundB, Obj, Tup,
-                      App, New, Raise, Coll, Part, walk)
-from ..interp import Interp, Hooks
+                      App, New, Raise, Coll, Part, walk, V)
+from ..interp import Interp, Hooks, prologue_helpers
 from ..formulas import FormulaHooks, LANGS
 from ..templates import TemplateHooks, make_hole, to_term, show
 from ..galg import (GraphHooks, Evaluator, evaluate_set, deep_snapshot,
@@ -54,6 +54,13 @@ def discover(prog):
     core = [c for c in calls_in(P.entry.node) if hasattr(c, 'node') and
             not isinstance(c, ClassInfo)]
     if len(core) != 1:
+        # prologue helpers (parsing, fairness set-up) next to the
+        # E-procedure: the latter is the callee that builds the tableau
+        # (instantiates a class of the module)
+        core = [c for c in core if any(isinstance(x, ClassInfo)
+                                       for x in calls_in(c.node))]
+        core = [c for i, c in enumerate(core) if c not in core[:i]]
+    if len(core) != 1:
         raise Inconclusive('R-LTL', 'E-procedure of LTL.modelcheck not '
                            'unique: %r' % core, P.entry.where())
     P.eproc = core[0]
@@ -79,7 +86,7 @@ def discover(prog):
         if isinstance(c, ClassInfo):
             continue
         src = ast.unparse(c.node)
-        if 'sorted(' in src:
+        if 'sorted(' in src or '.sort(' in src:
             P.atoms_fn = c
     for n in ast.walk(tinit.node):
         if isinstance(n, ast.If) and isinstance(n.test, ast.Call) and \
@@ -540,6 +547,11 @@ def _assignments(hooks, p, atom, kids):
             if all(r is True for r in rs):
                 return True
             return None
+        if isinstance(c, V) and any(x == rest for x in walk(c)):
+            # a condition on the atom's remainder in a form that is not
+            # interpreted: no verdict rather than "unconstrained"
+            raise Inconclusive('R-LTL-3', 'condition on the atom not '
+                               'interpreted: %r' % (c,), '')
         return None
     out = []
     for asg in itertools.product([True, False], repeat=len(kids)):
@@ -642,27 +654,39 @@ def rule_ltl0(prog, P):
                    'processes closure members by height)')
     from ..formulas import signatures, new_instance
     sigs = signatures(prog)['LTL']
-    # the sort key must be the height (except not-X): read from the lambda
+    # the key under which the closure is sorted: a lambda or a function of
+    # the module, given to sorted(...) / .sort(...)
     keyok = False
+    lam = None
+    keyfn = None
+    nsort = 0
     for n in ast.walk(P.atoms_fn.node):
-        if isinstance(n, ast.Call) and isinstance(n.func, ast.Name) and \
-                n.func.id == 'sorted':
+        if isinstance(n, ast.Call) and (
+                (isinstance(n.func, ast.Name) and n.func.id == 'sorted') or
+                (isinstance(n.func, ast.Attribute) and
+                 n.func.attr == 'sort')):
+            nsort += 1
             for kw in n.keywords:
-                if kw.arg == 'key' and 'height' in ast.unparse(kw.value):
-                    keyok = True
-    r.inst(function=P.atoms_fn.short(), sort_key_is_height=keyok)
+                if kw.arg != 'key':
+                    continue
+                if isinstance(kw.value, ast.Lambda):
+                    lam = kw.value
+                elif isinstance(kw.value, ast.Name) and \
+                        kw.value.id in P.mod.funcs:
+                    keyfn = P.mod.funcs[kw.value.id]
+                else:
+                    raise Inconclusive('R-LTL-0', 'sort key %s' %
+                                       ast.unparse(kw.value),
+                                       P.atoms_fn.where())
+    if nsort == 0:
+        raise Inconclusive('R-LTL-0', 'the atom builder does not sort the '
+                           'closure', P.atoms_fn.where())
     # semantics of the key: height, except `not X psi` which must be ranked
     # with `X psi` (height - 1) -- for LTL *and* CTL* classes (the CTL*
     # checker feeds CTL*-class formulas to this tableau)
-    lam = None
-    for n in ast.walk(P.atoms_fn.node):
-        if isinstance(n, ast.Call) and isinstance(n.func, ast.Name) and \
-                n.func.id == 'sorted':
-            for kw in n.keywords:
-                if kw.arg == 'key' and isinstance(kw.value, ast.Lambda):
-                    lam = kw.value
-    if lam is not None:
+    if lam is not None or keyfn is not None:
         from ..program import FuncInfo
+        keyok = True
         for lang in ('LTL', 'CTLS'):
             al2 = prog.alphabet(LANGS[lang])
             h0 = make_hole(prog, 0, lang)
@@ -681,10 +705,14 @@ def rule_ltl0(prog, P):
                 fo = path.alloc('frame')
                 path.heap[fo.oid].module = P.mod
                 path.heap[fo.oid].fnode = P.atoms_fn.node
-                fi = FuncInfo(P.mod, lam, None, qual='<sortkey>')
-                fi.name = '<lambda>'
-                res = I.call_function(FRef(fi, closure=fo.oid, node=lam),
-                                      [val], [], path, lam)
+                if lam is not None:
+                    fi = FuncInfo(P.mod, lam, None, qual='<sortkey>')
+                    fi.name = '<lambda>'
+                    res = I.call_function(FRef(fi, closure=fo.oid, node=lam),
+                                          [val], [], path, lam)
+                else:
+                    res = I.call_function(FRef(keyfn), [val], [], path,
+                                          keyfn.node)
                 vals = [v for (p, v) in res if not isinstance(v, Raise)]
                 want = App('height', val) if off == 0 else \
                     App('binop', Const('-'), App('height', val), Const(1))
@@ -693,6 +721,7 @@ def rule_ltl0(prog, P):
                 if vals == [want]:
                     r.ok()
                 else:
+                    keyok = False
                     r.fail(Finding(
                         PROP, 'R-LTL-0', P.atoms_fn.where(),
                         P.atoms_fn.short(),
@@ -704,12 +733,14 @@ def rule_ltl0(prog, P):
                         'formulas reach this tableau with CTL* classes)' % (
                             lang, cn, [repr(v)[:80] for v in vals],
                             '' if off == 0 else ' - 1')))
+    r.inst(function=P.atoms_fn.short(), sort_key_is_height=keyok)
     if keyok:
         r.ok()
-    else:
+    elif lam is None and keyfn is None:
         r.fail(Finding(PROP, 'R-LTL-0', P.atoms_fn.where(),
                        P.atoms_fn.short(), 'sort-key',
-                       'the closure is not processed in order of height'))
+                       'the closure is sorted without a key: it is not '
+                       'processed in order of height'))
     seen = set()
     for name, s in sorted(sigs.items()):
         if s.kind != 'op' or s.wrap.qn in seen and False:
@@ -896,7 +927,8 @@ def rule_ltl1(prog, P):
             self.graph_init(prog)
 
         def inline(self, I, fi, args):
-            return fi is f or fi.module.name.endswith('language')
+            return fi is f or fi.module.name.endswith('language') or \
+                fi.qn in prologue_helpers(f)
 
         def call(self, I, fv, args, kw, path, node):
             if isinstance(fv, (BoundB,)) or (isinstance(fv, App) and
